@@ -744,7 +744,7 @@ pub fn unit_c19(w: &World, seed: u64, unit: u64, tier: Tier) -> Vec<Case> {
     if r.chance(1, 4) {
         // protobuf: generated messages, contiguous and fragmented input
         use crate::pwire::*;
-        let name = *r.pick(&["AllScalars", "Small", "Maps", "Choice", "Node", "Peer", "Envelope", "Envelope", "Holder"]);
+        let name = *r.pick(&GEN_PICK);
         let mut e = PEnc::new();
         let knobs = PKnobs::swarm(&mut r);
         {
@@ -1073,7 +1073,7 @@ pub fn unit_c10(w: &World, seed: u64, unit: u64, tier: Tier) -> Vec<Case> {
         }
     } else {
         // generated messages
-        let name = *r.pick(&["AllScalars", "Small", "Maps", "Choice", "Node", "Peer", "Envelope", "Envelope", "Holder"]);
+        let name = *r.pick(&GEN_PICK);
         let mut e = PEnc::new();
         let knobs = PKnobs::swarm(&mut r);
         {
